@@ -20,12 +20,13 @@ TReg     == /\ Ev("Reg") /\ RegChange
 THReq    == Ev("HReq") /\ WsIssue /\ wsLast = E.idx
 THResp   == Ev("HResp") /\ WsHealth /\ wsLast' = E.idx
 TCResp   == Ev("CResp") /\ WsCatalog(AbsSvc(E.svc))
+TCFail   == Ev("CFail") /\ WsCatalogFail(AbsSvc(E.svc))
 TKReq    == Ev("KReq") /\ WkIssue /\ wkLast = E.idx
 TKResp   == Ev("KResp") /\ WkAnswer /\ wkLast' = E.idx /\ wkVal' = E.val
 TInstall == Ev("Install") /\ BeInstall /\ active' = ToSet(E.table)
 Silent   == l' = l /\ (BeRecvSvc \/ BeRecvMan \/ BeSame \/ BeReject)
 
-TNext == TReg \/ THReq \/ THResp \/ TCResp \/ TKReq \/ TKResp \/ TInstall \/ Silent
+TNext == TReg \/ THReq \/ THResp \/ TCResp \/ TCFail \/ TKReq \/ TKResp \/ TInstall \/ Silent
 TSpec == TInit /\ [][TNext]_<<vars, l>>
 
 HW == TLCSet(1, IF TLCGet(1) < l THEN l ELSE TLCGet(1))
